@@ -2,6 +2,7 @@ package fsloop
 
 import (
 	"github.com/goatcms/goatcore/app"
+	"github.com/goatcms/goatcore/varutil/verifhook"
 	"github.com/goatcms/goatcore/workers"
 	"github.com/goatcms/goatcore/workers/jobsync"
 )
@@ -72,6 +73,7 @@ func (loop *Loop) Run(path string) {
 	go func() {
 		producerPool.Wait()
 		loop.lifecycle.NextStep(StepClose)
+		verifhook.Yield("fsloop.closed")
 		close(loop.loopData.chans.dirChan)
 		close(loop.loopData.chans.fileChan)
 	}()
